@@ -28,7 +28,7 @@ func init() {
 	})
 	register(&propDef{
 		id:      "C29",
-		explain: "Structural necessary conditions of 'headers behave as an ordered case-insensitive multimap': (E11) as for C28, for header.h / cookies storage of both header types; (sibling) the special header names handled by the set / peek / peekAll / del / serialise paths of each header type are the same set, so a name stored in a dedicated field by one operation is found by the others; (E7) CopyTo writes every field of the destination header from the same field of the source; (accumulate) the generic Set-Cookie paths of the response header (setter switch and parser) append to the cookie list and never replace by key. (R-slot) a recycled entry handed out by allocArg has its key and value stored before it is kept, directly or by a scanner whose producing returns store them on every path; (R-iter) in the serialisers, the branch guarding the write of a stored field does not flow from a boolean merged at the head of the loop over the fields - the fate of a field depends on that field alone; Not decided: model agreement over operation sequences, parse/serialise round trip.",
+		explain: "Structural necessary conditions of 'headers behave as an ordered case-insensitive multimap': (E11) as for C28, for header.h / cookies storage of both header types; (sibling) the special header names handled by the set / peek / peekAll / del / serialise paths of each header type are the same set, so a name stored in a dedicated field by one operation is found by the others; (E7) CopyTo writes every field of the destination header from the same field of the source; (accumulate) the generic Set-Cookie paths of the response header (setter switch and parser) append to the cookie list and never replace by key. (R-slot) a recycled entry handed out by allocArg has its key and value stored before it is kept, directly or by a scanner whose producing returns store them on every path; (R-iter) in the serialisers, the branch guarding the write of a stored field does not flow from a boolean merged at the head of the loop over the fields - the fate of a field depends on that field alone; (R-single) for a special name whose other values are kept in the generic list (Connection), every path of its case in setSpecialHeader stores into or deletes from that list, so a second Set replaces the first; Not decided: model agreement over operation sequences, parse/serialise round trip.",
 		run: func(p *Prog, r *Report) {
 			runKVOrder(p, r, "C29")
 			runHeaderSiblings(p, r)
@@ -36,6 +36,7 @@ func init() {
 			runSetCookieAccumulates(p, r)
 			runSlotFill(p, r, "C29")
 			runPerFieldDecision(p, r)
+			runSpecialSingleValued(p, r)
 		},
 	})
 }
@@ -908,4 +909,72 @@ func runPerFieldDecision(p *Prog, r *Report) {
 		}
 	}
 	r.Floor("R-iter", "per-field appendHeaderLine calls inside loops of header serialisers", n, 4)
+}
+
+// runSpecialSingleValued (C29.R-single): a special name whose value can also
+// live in the generic field list (Connection: anything but 'close' is stored
+// there) stays single-valued only if every way of setting it replaces what the
+// list holds. In each setSpecialHeader, for a name whose case contains a call
+// of setNonSpecial, every path from the case's entry to its return passes that
+// call or a removal of the name from the list - otherwise an earlier value
+// stays behind and the name is written (and listed by PeekKeys) twice.
+func runSpecialSingleValued(p *Prog, r *Report) {
+	cic := p.Func("caseInsensitiveCompare")
+	n := 0
+	for _, spec := range []string{"(*RequestHeader).setSpecialHeader", "(*ResponseHeader).setSpecialHeader"} {
+		fn := p.Func(spec)
+		if fn == nil || cic == nil {
+			r.Undecided("R-single", spec, "not found")
+			continue
+		}
+		isGeneric := func(i ssa.Instruction) bool {
+			c, ok := i.(ssa.CallInstruction)
+			if !ok || c.Common().StaticCallee() == nil {
+				return false
+			}
+			nm := c.Common().StaticCallee().Name()
+			return nm == "setNonSpecial" || strings.HasPrefix(nm, "delAllArgs")
+		}
+		seenHead := map[*ssa.BasicBlock]bool{}
+		for _, b := range fn.Blocks {
+			for _, in := range b.Instrs {
+				c, ok := in.(ssa.CallInstruction)
+				if !ok || c.Common().StaticCallee() == nil || c.Common().StaticCallee().Name() != "setNonSpecial" {
+					continue
+				}
+				// the case this call belongs to: the innermost dominating test caseInsensitiveCompare(<name>, key)
+				var head *ssa.BasicBlock
+				name := ""
+				for d := b; d != nil && head == nil; d = d.Idom() {
+					id := d.Idom()
+					if id == nil {
+						break
+					}
+					iff, ok := id.Instrs[len(id.Instrs)-1].(*ssa.If)
+					if !ok || id.Succs[0] != d {
+						continue
+					}
+					if cv, ok := iff.Cond.(*ssa.Call); ok && cv.Call.StaticCallee() == cic {
+						for _, a := range cv.Call.Args {
+							if g := globalOf(a); g != "" {
+								head, name = d, g
+							}
+						}
+					}
+				}
+				if head == nil || seenHead[head] {
+					continue
+				}
+				seenHead[head] = true
+				n++
+				hit, path := reachAvoiding(fn, head.Instrs[0], isReturn, isGeneric, nil)
+				if isGeneric(head.Instrs[0]) {
+					hit = nil
+				}
+				r.Check("R-single", fmt.Sprintf("%s: every way of setting %s replaces what the generic field list holds under that name", funcName(fn), name), hit == nil, p.Pos(c.Pos()),
+					"a path of this case returns without storing into or deleting from the generic list, while another path of the same case stores there: a value set earlier stays in the list, so the name is serialised and listed twice although Peek reports one value", blocksString(p, path)...)
+			}
+		}
+	}
+	r.Floor("R-single", "special names that also live in the generic list", n, 2)
 }
